@@ -285,9 +285,14 @@ where
     // state = (real adapter, model bytes, model byte position)
     let mut seen: HashSet<String> = HashSet::new();
     let mut q: VecDeque<(WordAdapter<W, Cursor<Vec<u8>>>, Vec<u8>, usize, Vec<Op>)> = VecDeque::new();
-    let a0 = WordAdapter::<W, Cursor<Vec<u8>>>::new(Cursor::new(init.clone()));
-    seen.insert(format!("{:?}", a0));
-    q.push_back((a0, init, 0, vec![]));
+    // the adapter is created over a stream at offset 0 and over streams already positioned after 1 or 2 words
+    for start_words in [0usize, 1, 2] {
+        let mut c = Cursor::new(init.clone());
+        c.set_position((start_words * wb) as u64);
+        let a0 = WordAdapter::<W, Cursor<Vec<u8>>>::new(c);
+        seen.insert(format!("{:?}", a0));
+        q.push_back((a0, init.clone(), start_words * wb, vec![]));
+    }
     while let Some((a, m, mp, path)) = q.pop_front() {
         out.cov.states += 1;
         if path.len() >= depth {
@@ -428,7 +433,7 @@ pub fn c11(ctx: &Ctx) -> (CheckMeta, Outcome) {
     let meta = CheckMeta {
         property: "C11".into(),
         level: "model_checking".into(),
-        rule: "deviation-bounded exploration of the environment: the Read/Write wrapped by WordAdapter answers every call by an explorer choice (write: whole buffer | every short count 0..len-1 | Interrupted | hard error; flush: Ok | Err; read: as much as possible | every short count | Interrupted | hard error | EOF); ALL schedules with at most 3 (thorough 5) deviations from the default answer, for word sizes 8..128 and sequences of 1..3 words (reads: plus a partial trailing word of 0, 1, W/8-1 bytes); oracle: every write_word that returned Ok has put exactly its native-endian bytes, once and in order, into the sink; every Ok(read_word) is the next W/8 source bytes and exactly those were consumed; a partial trailing word is an error. states = schedules executed, transitions = environment calls. Plus explicit-state BFS (depth 6, thorough 7) of WordAdapter over a seekable Cursor (read_word, write_word, set_word_pos 0..6, word_pos) against a byte-vector model: word_pos = words preceding the cursor after every call, seeking addresses that word. Bit streams through the adapter vs memory are part of C01 (backend 'adapter'), C02/C07 (backends 'cursor', 'bufreader')".into(),
+        rule: "deviation-bounded exploration of the environment: the Read/Write wrapped by WordAdapter answers every call by an explorer choice (write: whole buffer | every short count 0..len-1 | Interrupted | hard error; flush: Ok | Err; read: as much as possible | every short count | Interrupted | hard error | EOF); ALL schedules with at most 3 (thorough 5) deviations from the default answer, for word sizes 8..128 and sequences of 1..3 words (reads: plus a partial trailing word of 0, 1, W/8-1 bytes); oracle: every write_word that returned Ok has put exactly its native-endian bytes, once and in order, into the sink; every Ok(read_word) is the next W/8 source bytes and exactly those were consumed; a partial trailing word is an error. states = schedules executed, transitions = environment calls. Plus explicit-state BFS (depth 6, thorough 7) of WordAdapter over a seekable Cursor (read_word, write_word, set_word_pos 0..6, word_pos) against a byte-vector model, starting from a stream at offset 0 and from streams already positioned after 1 or 2 words: word_pos = words preceding the cursor after every call, seeking addresses that word. Bit streams through the adapter vs memory are part of C01 (backend 'adapter'), C02/C07 (backends 'cursor', 'bufreader')".into(),
         assumptions: vec!["the environment alphabet covers what std::io::Read/Write allow: short transfers, Interrupted, errors".into()],
     };
     (meta, out)
